@@ -4,6 +4,9 @@ WS = "kappadata/samplers/weighted_sampler.py"
 SS = "kappadata/samplers/semi_sampler.py"
 
 MUTANTS = [
+    ("weighted: epoch draw seeded per rank", [(WS, "manual_seed(self.seed + self.epoch)", "manual_seed(self.seed + self.epoch + self.rank)")], "G9.weighted-no-repeat"),
+    ("semi: mode all counts the labeled pool twice", [(SS, "(len(self.labeled_idxs) + len(self.unlabeled_idxs)) // (self.num_labeled + self.num_unlabeled)", "(len(self.labeled_idxs) + len(self.labeled_idxs)) // (self.num_labeled + self.num_unlabeled)")], "G9.semi-length"),
+    ("semi: mode unlabeled divides by the labeled chunk", [(SS, "num_chunks = len(self.unlabeled_idxs) // self.num_unlabeled", "num_chunks = len(self.unlabeled_idxs) // self.num_labeled")], "G9.semi-length"),
     ("semi: stream seed without the rank", [(SS, "manual_seed(self.seed + rank_seed.item() + epoch_seed.item())", "manual_seed(self.seed + epoch_seed.item())")], "G4.semi-seed"),
     ("semi: stream seed without the epoch", [(SS, "manual_seed(self.seed + rank_seed.item() + epoch_seed.item())", "manual_seed(self.seed + rank_seed.item())")], "G4.semi-seed"),
     ("semi: rank seed drawn from the epoch", [(SS, "rank_seed = torch.empty((), dtype=torch.int32).random_(generator=torch.Generator().manual_seed(self.rank))", "rank_seed = torch.empty((), dtype=torch.int32).random_(generator=torch.Generator().manual_seed(self.epoch))")], "G4.semi-seed"),
@@ -25,6 +28,8 @@ MUTANTS = [
 ]
 
 BENIGN = [
+    ("weighted: generator seeded in a second statement", [(WS, "generator = torch.Generator().manual_seed(self.seed + self.epoch)", "generator = torch.Generator()\n        generator.manual_seed(self.epoch + self.seed)")]),
+    ("semi: mode all through a local, operands swapped", [(SS, "num_chunks = (len(self.labeled_idxs) + len(self.unlabeled_idxs)) // (self.num_labeled + self.num_unlabeled)", "num_samples = len(self.unlabeled_idxs) + len(self.labeled_idxs)\n            num_chunks = num_samples // (self.num_unlabeled + self.num_labeled)")]),
     ("semi: positional split rewritten", [(SS, "if i % (self.num_labeled + self.num_unlabeled) < self.num_labeled:", "if self.num_labeled > i % (self.num_unlabeled + self.num_labeled):")]),
     ("semi: seed via local", [(SS, "        generator = torch.Generator().manual_seed(self.seed + rank_seed.item() + epoch_seed.item())\n", "        stream_seed = self.seed + rank_seed.item() + epoch_seed.item()\n        generator = torch.Generator().manual_seed(stream_seed)\n")]),
     ("weighted: keyword arguments", [(WS, "torch.multinomial(self.weights, self.effective_length, replacement=False", "torch.multinomial(input=self.weights, num_samples=self.effective_length, replacement=False")]),
